@@ -128,6 +128,17 @@ CLAIMED.update({
     ),
 })
 
+CLAIMED.update({
+    "C01": (
+        "PAIR abstract interpretation (lexical scoping), panic-default exhaustiveness of every compiler pass, closed forms / emission templates (conditionals, operand order, match dispatch), who-may-call for reordering primitives, strictness scan of emitter templates, go/types check of all shipped generated files",
+        "Behavioural equality over all programs is NOT decided. Decided, each for all programs at once, are structural necessary conditions whose violation changes behaviour for some program: scopes are pushed/popped exactly around binders; all 44 never-reached type switches are exhaustive; "
+        "conditionals become frt.IfElse*/IfOnly over un-invoked function literals in order; operands are emitted once in source order and never reordered; case labels and constructors share one naming function; every shipped generated file type-checks. "
+        "5 known findings (partial application re-evaluates supplied arguments; 4 shipped samples do not compile).",
+        "Closures, inference interaction and evaluation results are not decided; Go's left-to-right evaluation order and the frt helpers (C14) are assumed.",
+        "DESIGN.md §3 C01",
+    ),
+})
+
 NOT_APPLICABLE = {
 }
 
